@@ -62,6 +62,17 @@ Theorem C09_deliver_alone_mode_irrelevant :
 Proof. exact deliver_alone_mode_irrelevant. Qed.
 Print Assumptions C09_deliver_alone_mode_irrelevant.
 
+(** Branch isolation for ARBITRARY steps (any Cosmos message of any module, simulated or delivered, failing or not, single or
+    inside a multi-message transaction): if every thread's step reads and writes its own branch only, then under every
+    schedule the branch of thread 0 is the one it has when running alone.  The hypothesis "own branch only" is what the
+    generated inventories (C09_shared_mutable_state_known, C09_no_unreviewed_aliasing, C09_every_access_guarded) establish
+    for the implementation: no mutable state on process-wide singletons besides the guarded pointer. *)
+Theorem C09_branch_isolation_generic :
+  forall (B : Type) (bstep : tid -> B -> B) (sched : list tid) (st : tid -> B),
+    grun B bstep sched st 0%nat = grun B bstep (deliver_only sched) st 0%nat.
+Proof. exact generic_branch_isolation. Qed.
+Print Assumptions C09_branch_isolation_generic.
+
 (** The checker evaluated on implementation traces decides the observable form of the property. *)
 Theorem C09_checker_sound : forall o, Pb o = true -> P o.
 Proof. exact Pb_sound. Qed.
